@@ -24,7 +24,7 @@ def _piece_check(cx, name, piece, ref, maps, tnames):
     cx.eq(name + '.point', shapes.evaluate(piece, ts), shapes.evaluate(ref, us))
 
 
-def h_split(cx, sp, d):
+def h_split(cx, sp, d, after_sibling=False):
     ops = geo.M('operations')
     obj, info = shapes.build(cx, sp)
     before = shapes.snapshot(obj)
@@ -35,12 +35,13 @@ def h_split(cx, sp, d):
     cx.assume(x > dom[d][0], check=False)
     cx.assume(x < dom[d][1], check=False)
     cx.snap(x, kv)
-    if obj.pdimension == 1:
-        pieces = ops.split_curve(obj, x)
-    elif d == 0:
-        pieces = ops.split_surface_u(obj, x)
-    else:
-        pieces = ops.split_surface_v(obj, x)
+    def _split(o):
+        if o.pdimension == 1:
+            return ops.split_curve(o, x)
+        return ops.split_surface_u(o, x) if d == 0 else ops.split_surface_v(o, x)
+    if after_sibling:
+        shapes.prime_with_sibling(cx, sp, lambda sib, _i: (_split(sib), ops.decompose_curve(sib) if sib.pdimension == 1 else ops.decompose_surface(sib)))
+    pieces = _split(obj)
     shapes.same_state(cx, 'input_unchanged', obj, before)
     cx.check('two_pieces', len(pieces) == 2)
     names = ['t%s' % c for c in shapes.DIRS[:obj.pdimension]]
@@ -111,6 +112,10 @@ def instances(tier):
         if not any(i.name == nm for i in out):
             out.append(inst(nm.strip(), fn, timeout=timeout, sp=sp, **kw))
 
+    add('split', h_split, spec('curve', (2,), ((1,),), rational=False, dim=3), d=0, after_sibling=True)
+    add('split', h_split, spec('curve', (3,), ((2,),), rational=True, dim=2), d=0, after_sibling=True)
+    add('split', h_split, spec('surface', (1, 2), ((1,), ()), rational=False), timeout=1800, d=1, after_sibling=True)
+    add('split', h_split, spec('surface', (2, 1), ((), (1,)), rational=True), timeout=1800, d=0, after_sibling=True)
     for p in ((1, 2, 3) if quick else (1, 2, 3, 4)):
         pats = [(), (1,), (p,), (1, 1)] + ([(2,), (1, 2)] if p >= 2 else []) + ([] if quick else [(1, p, 1)])
         for m in pats:
